@@ -210,3 +210,22 @@ reg("C06",
     level_text="hit_always_clauses, request_clauses, hit_completed_clauses, captured_is_prefix and hit_failed_clauses are proved in Coq for every target, configuration and exchange (unbounded) about a Gallina model of Attacker.hit/Target.Request over an oracle transport; the model and a clause-by-clause checker defined in Coq are run against real hits through a scripted http.RoundTripper on every run.",
     technique="Coq case analysis/refinement to a clause-by-clause spec; differential correspondence through a scripted RoundTripper",
     timeout={"quick": 600, "thorough": 3000})
+
+reg("C14",
+    rule="http format: 1..6 (every tenth case 20..50) targets with upper-case methods, absolute URLs, 0..8 headers over 9 keys "
+         "with case variants/repeats/keys also in the defaults, optional @file bodies in a per-case sandbox directory, rendered "
+         "with random legal layout (comments and blank lines before request lines, comments between header lines and directly "
+         "after a header-less request line, blanks around ':' and at line ends, LF or CRLF, with/without final newline); JSON "
+         "format: targets written by the real JSON target encoder mixed with blank lines, malformed objects and a missing final "
+         "newline, each line's meaning supplied by encoding/json as an independent reader; defaults: 0..3 header keys whose "
+         "value slices have 0..2 spare capacity, optional default body; every returned target is snapshotted at return and "
+         "re-inspected after all later calls, the defaults (incl. spare capacity) after decoding; all cases non-trivial",
+    clauses={1: "http format: returned targets differ from the described ones (order, merge of defaults, exhaustion)",
+             2: "http format: a target returned earlier changed when a later one was decoded", 3: "http format: the default headers were modified",
+             4: "json format: returned targets differ from the described ones", 5: "json format: an earlier target changed", 6: "json format: the default headers were modified"},
+    assumptions=["url.ParseRequestURI: reference predicate url_ok; os.ReadFile: finite map; bufio.Scanner token limit (64 KiB) not modelled",
+                 "the generated easyjson object decoder is an oracle: each JSON line's meaning is supplied by encoding/json (independent reader)",
+                 "strings.TrimSpace restricted to ASCII white space"],
+    level_text="Gallina model of the http targeter's line state machine (bufio.ScanLines, the peeking scanner with its empty-string sentinel, comment/blank/header/@body handling, default merge) and of the JSON targeter's line loop and merge; theorems so far: json_defaults_merge (see DESIGN for the http decode-render theorem status); the model and the intent/independence checker defined in Coq are run against the real targeters on every run, earlier targets and the defaults being re-inspected after later calls.",
+    technique="Coq model of the parser state machine + differential correspondence with aliasing re-inspection",
+    timeout={"quick": 600, "thorough": 3000})
